@@ -3,4 +3,5 @@ let () =
   | _ :: "enc" :: _ -> D_enc.run ()
   | _ :: "tree" :: _ -> D_tree.run ()
   | _ :: "harr" :: _ -> D_harr.run ()
+  | _ :: "str" :: _ -> D_str.run ()
   | _ -> prerr_endline "usage: driver <area> < ops"; exit 2
